@@ -474,19 +474,24 @@ def _fence_helper_evaluated(ctx, res, s):
                         isinstance(n.ctx, ast.Store) and n.attr in reads:
                     foreign.append('{} in {}'.format(n.attr, g.name))
     LEX = 'pico8.lua.lexer:'
-    layout = 'a b N c d N e'.split()       # N = line end
+    # N = line end, C = a block comment inside a line, S = a space: only a
+    # line end ends the line of a short-if
+    layout = 'a C b N c S d C N e'.split()
     try:
         cxi = CX.Cx(model, ctx.consts)
         chunk = CX.Opaque('chunk', {
             'store_token_groups': lambda c, a, k: None})
         cxi.hooks = {P + ':Parser._chunk':
                      lambda c, a, k, bound=None: chunk}
-        order = [4, 0, 5, 2, 7, 1, 3, 6, 0, 7]
+        order = [4, 0, 5, 2, 7, 1, 3, 6, 0, 9, 8]
 
         def go():
+            kinds = {'N': ('TokNewline', b'\n'), 'S': ('TokSpace', b' '),
+                     'C': ('TokComment', b'--[[c]]')}
             toks = [cxi.call(CX.ClassVal(model.cls(
-                LEX + ('TokNewline' if x == 'N' else 'TokName'))),
-                [b'\n' if x == 'N' else x.encode()], {}) for x in layout]
+                LEX + kinds.get(x, ('TokName', None))[0])),
+                [kinds[x][1] if x in kinds else x.encode()], {})
+                for x in layout]
             pr = cxi.call(CX.ClassVal(cls), [], {'version': 8})
             cxi.call(cxi.getattr(pr, 'process_tokens'), [toks], {})
             fn = cxi.getattr(pr, m.name)
@@ -512,8 +517,9 @@ def _fence_helper_evaluated(ctx, res, s):
         return True
     p_, g, w = bad[0]
     msg = 'asked for position {} after positions {}, {} answers {} but the ' \
-        'line of token {} ends at {}: a short-if parsed again after ' \
-        'backtracking owns the following line(s)'.format(
+        'line of token {} ends at {}: a short-if there (parsed again ' \
+        'after backtracking, when earlier requests are listed) ends at ' \
+        'the wrong token'.format(
             p_, order[:order.index(p_)] if order.index(p_) else 'none',
             m.name, g, p_, w)
     if foreign:
